@@ -28,7 +28,9 @@ enum Focus {
 }
 
 #[derive(Clone)]
-struct C13Case {
+pub struct C13Case {
+    /// the check this case is run for (keys and crash reports carry it)
+    prop: &'static str,
     prog: Program,
     replies: Vec<String>,
     keys: Vec<String>,
@@ -92,7 +94,7 @@ impl Case for C13Case {
         if let Some(f) = &wb.fatal {
             return Verdict {
                 violation: Some(Violation {
-                    key: format!("C13:crash:{}", f.tag),
+                    key: format!("{}:crash:{}", self.prop, f.tag),
                     detail: f.detail.clone(),
                 }),
                 ..v
@@ -137,7 +139,7 @@ impl Case for C13Case {
             add(v, &w);
             if let Some(f) = &w.fatal {
                 return Some(Violation {
-                    key: format!("C13:crash:{}", f.tag),
+                    key: format!("{}:crash:{}", self.prop, f.tag),
                     detail: format!("{} [{}]", f.detail, what),
                 });
             }
@@ -168,19 +170,19 @@ impl Case for C13Case {
             }
             if c.budget_hit {
                 return Some(Violation {
-                    key: format!("C13:{}{}:did-not-finish", what.split(' ').next().unwrap_or(what), site),
+                    key: format!("{}:{}{}:did-not-finish", self.prop, what.split(' ').next().unwrap_or(what), site),
                     detail: format!("{}: the continued run did not finish within the budget", what),
                 });
             }
             if c.toks != base.toks {
                 return Some(Violation {
-                    key: format!("C13:{}{}:transcript", what.split(' ').next().unwrap_or(what), site),
+                    key: format!("{}:{}{}:transcript", self.prop, what.split(' ').next().unwrap_or(what), site),
                     detail: format!("{}: {}", what, first_diff(&base.toks, &c.toks)),
                 });
             }
             if probe != base_probe {
                 return Some(Violation {
-                    key: format!("C13:{}{}:variables", what.split(' ').next().unwrap_or(what), site),
+                    key: format!("{}:{}{}:variables", self.prop, what.split(' ').next().unwrap_or(what), site),
                     detail: format!("{}: {}", what, first_diff(&base_probe, &probe)),
                 });
             }
@@ -286,7 +288,7 @@ impl Case for C13Case {
             v.stats.bump("c13.schedules_compared");
             if let Some(f) = &w.fatal {
                 v.violation = Some(Violation {
-                    key: format!("C13:crash:{}", f.tag),
+                    key: format!("{}:crash:{}", self.prop, f.tag),
                     detail: format!("{} [schedule {}]", f.detail, s),
                 });
                 return v;
@@ -296,7 +298,7 @@ impl Case for C13Case {
                     .find(|i| w.events.get(*i) != base_events.get(*i))
                     .unwrap_or(0);
                 v.violation = Some(Violation {
-                    key: "C13:quantum:events".into(),
+                    key: format!("{}:quantum:events", self.prop),
                     detail: format!(
                         "schedule {}: event {} is {:?}, with quantum 5000 it is {:?}",
                         s,
@@ -393,25 +395,12 @@ impl Case for C13Case {
     }
 }
 
-impl Property for C13 {
-    fn id(&self) -> &'static str {
-        "C13"
-    }
-    fn level(&self) -> &'static str {
-        "fault_enumeration"
-    }
-    fn generate(&self, rng: &mut Rng, tier: Tier) -> Box<dyn Case> {
-        let mut cfg = GenCfg::swarm(rng);
-        cfg.tron = false;
-        cfg.size = *rng.pick(&[2usize, 3, 4, 6, 8]);
-        if tier == Tier::Thorough && rng.pct(35) {
-            // the thorough tier also explores larger programs
-            cfg.size *= 2;
-        }
-        cfg.inkey = rng.pct(15);
-        let layout_member = rng.pct(40);
-        cfg.layout = layout_member;
-        let mut prog = gen_program(rng, cfg);
+/// A program of the given configuration with the whole interrupt / STOP / END / schedule
+/// enumeration of C13 around it, reported under `prop` (other checks enumerate the interrupt
+/// instants of their own kind of program with it).
+pub fn interrupt_case(rng: &mut Rng, cfg: GenCfg, prop: &'static str, max_points: u64) -> Box<dyn Case> {
+    let layout_member = cfg.layout;
+    let mut prog = gen_program(rng, cfg);
         if rng.pct(15) && prog.lines.len() >= 2 {
             // the program lists a part of itself: the LIST statement is served line by line and can be
             // interrupted between any two lines
@@ -457,17 +446,38 @@ impl Property for C13 {
             replies.push(rng.pick(&["1", "2,3", "X", "4,5,6"]).to_string());
         }
         let keys: Vec<String> = (0..6).map(|_| rng.pick(&["", "a", "Q", "\r"]).to_string()).collect();
-        Box::new(C13Case {
-            prog,
-            replies,
-            keys,
-            layout_member,
-            inspect: rng.pct(50),
-            sched_seed: rng.next_u64(),
-            entropy: rng.next_u64(),
-            focus: Focus::All,
-            max_points: 700,
-        })
+    Box::new(C13Case {
+        prop,
+        prog,
+        replies,
+        keys,
+        layout_member,
+        inspect: rng.pct(50),
+        sched_seed: rng.next_u64(),
+        entropy: rng.next_u64(),
+        focus: Focus::All,
+        max_points,
+    })
+}
+
+impl Property for C13 {
+    fn id(&self) -> &'static str {
+        "C13"
+    }
+    fn level(&self) -> &'static str {
+        "fault_enumeration"
+    }
+    fn generate(&self, rng: &mut Rng, tier: Tier) -> Box<dyn Case> {
+        let mut cfg = GenCfg::swarm(rng);
+        cfg.tron = false;
+        cfg.size = *rng.pick(&[2usize, 3, 4, 6, 8]);
+        if tier == Tier::Thorough && rng.pct(35) {
+            // the thorough tier also explores larger programs
+            cfg.size *= 2;
+        }
+        cfg.inkey = rng.pct(15);
+        cfg.layout = rng.pct(40);
+        interrupt_case(rng, cfg, "C13", 700)
     }
     fn budget(&self, tier: Tier) -> Budget {
         match tier {
